@@ -59,6 +59,7 @@ type kvBackend struct {
 	cleanup func()
 	pendingMon [][2]string // monitor lines to emit after the current op line
 	doneCtx    bool        // the current call gets a context that is already cancelled
+	down       bool        // the Redis server was closed: every call must fail
 }
 
 func newKvBackend(kind string) *kvBackend {
@@ -213,6 +214,14 @@ func (b *kvBackend) exec(ctx *Ctx, w0 []string) string {
 		w[1] = kvKey(w[1])
 	}
 	switch w[0] {
+	case "down":
+		// the server goes away (Redis only): from now on every call must FAIL — an answer that looks like a
+		// result ("no such key", an empty listing) would be an invention
+		if b.mr != nil {
+			b.mr.Close()
+			b.down = true
+		}
+		return "ok"
 	case "subms":
 		us, _ := strconv.Atoi(w[2])
 		ctx.R.Nontrivial("sub-millisecond expiry via " + w[1])
@@ -396,7 +405,10 @@ func kvRunCase(ctx *Ctx, kind, tag string, ops []string) {
 			}
 			ctx.R.Nontrivial("context already done")
 		} else {
-			out = guard(func() string { return b.exec(ctx, w[1:]) })
+		out = guard(func() string { return b.exec(ctx, w[1:]) })
+		}
+		if b.down && strings.HasPrefix(out, "otherErr:") {
+			out = "otherErr" // (whatever the network error says)
 		}
 		ctx.R.Op(o, out)
 		for _, m := range b.pendingMon {
@@ -722,6 +734,20 @@ func runKv(ctx *Ctx, kind string) {
 			}
 		}
 		kvRunCase(ctx, kind, "", ops)
+	}
+	if kind == "redis" {
+		// the server goes away in mid-history: every later call fails, none invents an answer
+		for c := 0; c < 12; c++ {
+			ops := kvGen(ctx, ctx.Rnd.Range(3, 12), true, keys)
+			t := strings.Fields(ops[len(ops)-1])[0]
+			ops = append(ops, t+" down")
+			for _, o := range []string{"get a", "getmany a", "getmany a,b", "create a x -", "put b y -", "putmany a:x:-,b:y:-", "cas a v1 z -", "delete a", "list *", "get zz/1"} {
+				if ctx.Rnd.Chance(2, 3) {
+					ops = append(ops, t+" "+o)
+				}
+			}
+			kvRunCase(ctx, kind, "down", ops)
+		}
 	}
 	if kind == "redis" && ctx.Focus != "C06" && ctx.Focus != "C02" {
 		// keys with a leading '/' that DO alias each other (known finding KF-2: rKey strips leading slashes).  The
